@@ -1,7 +1,8 @@
 (** Extraction of the command-line group (C20): Impl.Cli.run and what the
-    driver needs to build its options. *)
-From PM Require Import Impl.Anchor Impl.Cli.
+    driver needs to build its options; idempotence_certificate (Spec/Idle.v) is the
+    decidable hypothesis of Properties/C20c.v, evaluated by the harness per case. *)
+From PM Require Import Impl.Anchor Impl.Cli Spec.Idle.
 Require Extraction.
 Require Import ExtrOcamlBasic.
 Extraction Language OCaml.
-Extraction "../ocaml/cli/model.ml" types_anchor run mkOpts parse_fmt process_in process_tree.
+Extraction "../ocaml/cli/model.ml" types_anchor run mkOpts parse_fmt process_in process_tree idempotence_certificate.
